@@ -1,6 +1,8 @@
 /- Line-protocol driver for the C12 model (ForML.Model.CrossVal).
 
   (denote <pipe>)                 ⟦pipe⟧ on (input 0) (input 1) (input 2): (ok <apply> <train> <label>)
+  (perftrack <pipe> metric reducer)   ⟦pipe >> PerfTrackScore⟧ on the tracked data (input 0) (input 3) (input 4), the
+                                  states being those trained on (input 1) (input 2): (ok <apply> <train> <label>)
   (rows <env> <val>)              provenance value of a term: (ok ((col rid ((col rid) ...)) ...)), deps sorted
   (init crossval <cv> <builder> <nsplits>) | (init holdout <sized> <cv> <builder>)
   | (init ensembler <nbases> <cv> <builder> <nsplits>)         constructor argument checks
@@ -11,11 +13,17 @@
           | (score n splitter metric reducer) | (seq pipe pipe)
   val   ::= none | (input n) | (apply tag val (val ...)) | (state tag val val val) | (part tag val k val)
           | (concat tag (val ...))
-  env   ::= (ntrain napply ((tag nsplits decision) ...))
+  env   ::= (ntrain napply ((tag nsplits decision volatile) ...) [ntracked])     (input 3/4: ntracked records); the graph-level terms: every splitter trained once = call 0
   decision ::= (kfold r) | (table (((p ...) (p ...)) ...))       indices ::= (((p ...) (p ...)) ...)
+  (actor <pickled|raw> ((nsplits decision volatile) ...) (op ...))     operation sequence on splitter actors; cross-validator
+                                                                       i = the i-th spec; answers (ok (out ...))
+  op  ::= (new a cv) | (train a (rid ...)) | (getstate s a) | (setstate a s) | (preset a s) | (setparams a cv)
+        | (getparams a) | (apply a col (rid ...))
+  out ::= unit | (params cv) | (parts ((rid ...) ...)) | (error e) | badref
 -/
 import ForML.Model.Sexp
 import ForML.Model.CrossVal
+import ForML.Model.CrossValActor
 open ForML ForML.CrossVal
 
 def bool? : Sexp → Option Bool
@@ -74,21 +82,42 @@ def decision? : Sexp → Option Decision
   | .list [.atom "table", sel] => do pure (.table (← indices? sel))
   | _ => none
 
-def splitterSpec? : Sexp → Option (Nat × Nat × Decision)
-  | .list [t, c, d] => do pure (← t.nat?, ← c.nat?, ← decision? d)
+def splitterSpec? : Sexp → Option (Nat × CvSpec)
+  | .list [t, c, d, v] => do pure (← t.nat?, ⟨← c.nat?, ← decision? d, ← bool? v⟩)
+  | _ => none
+
+def cvSpec? : Sexp → Option CvSpec
+  | .list [c, d, v] => do pure ⟨← c.nat?, ← decision? d, ← bool? v⟩
+  | _ => none
+
+def transfer? : Sexp → Option Transfer
+  | .atom "pickled" => some .pickled
+  | .atom "raw" => some .raw
+  | _ => none
+
+def op? : Sexp → Option Op
+  | .list [.atom "new", a, cv] => do pure (.new (← a.nat?) (← cv.nat?))
+  | .list [.atom "train", a, rids] => do pure (.train (← a.nat?) (← rids.natList?))
+  | .list [.atom "getstate", s, a] => do pure (.getState (← s.nat?) (← a.nat?))
+  | .list [.atom "setstate", a, s] => do pure (.setState (← a.nat?) (← s.nat?))
+  | .list [.atom "preset", a, s] => do pure (.preset (← a.nat?) (← s.nat?))
+  | .list [.atom "setparams", a, cv] => do pure (.setParams (← a.nat?) (← cv.nat?))
+  | .list [.atom "getparams", a] => do pure (.getParams (← a.nat?))
+  | .list [.atom "apply", a, col, rids] => do pure (.apply (← a.nat?) (← col.nat?) (← rids.natList?))
   | _ => none
 
 def sourceRows (col n : Nat) : Data := (List.range n).map fun r => ⟨⟨col, r⟩, []⟩
 
+def mkEnv (n m k : Nat) (specs : List (Nat × CvSpec)) : Env :=
+  { inp := fun c => if c = 0 then sourceRows 0 m else if c = 1 then sourceRows 1 n else if c = 2 then sourceRows 2 n
+             else if c = 3 then sourceRows 3 k else if c = 4 then sourceRows 4 k else []
+    dec := fun tag x _ => match specs.find? (fun s => s.1 == tag) with
+      | some (_, spec) => spec.split 0 x.length
+      | none => [] }
+
 def env? : Sexp → Option Env
-  | .list [n, m, .list specs] => do
-    let n ← n.nat?
-    let m ← m.nat?
-    let specs ← specs.mapM splitterSpec?
-    pure { inp := fun c => if c = 0 then sourceRows 0 m else if c = 1 then sourceRows 1 n else if c = 2 then sourceRows 2 n else []
-           dec := fun tag x _ => match specs.find? (fun s => s.1 == tag) with
-             | some (_, c, d) => d.indices c x.length
-             | none => [] }
+  | .list [n, m, .list specs] => do pure (mkEnv (← n.nat?) (← m.nat?) 0 (← specs.mapM splitterSpec?))
+  | .list [n, m, .list specs, k] => do pure (mkEnv (← n.nat?) (← m.nat?) (← k.nat?) (← specs.mapM splitterSpec?))
   | _ => none
 
 def atomLt (a b : Atom) : Bool := a.col < b.col || (a.col == b.col && a.rid < b.rid)
@@ -107,13 +136,30 @@ def errSexp : Err → Sexp
   | .typeError => .atom "TypeError"
   | .valueError => .atom "ValueError"
 
+def outSexp : Out → Sexp
+  | .unit => .atom "unit"
+  | .params cv => .list [.atom "params", Sexp.ofNat cv]
+  | .parts ps => .list [.atom "parts", .list (ps.map Sexp.ofNats)]
+  | .error e => .list [.atom "error", errSexp e]
+  | .badRef => .atom "badref"
+
 def stepC12 : Sexp → Sexp
+  | .list [.atom "actor", t, .list specs, .list ops] =>
+    match transfer? t, specs.mapM cvSpec?, ops.mapM op? with
+    | some t, some specs, some ops => .list [.atom "ok", .list ((Machine.init.run (specSplits specs) t ops).map outSexp)]
+    | _, _, _ => .atom "bad-op"
   | .list [.atom "denote", p] =>
     match pipe? p with
     | some p =>
       let s := denote p (.input 0) (.input 1) (.input 2)
       .list [.atom "ok", valSexp s.apply, valSexp s.train, valSexp s.label]
     | none => .atom "bad-op"
+  | .list [.atom "perftrack", p, metric, reducer] =>
+    match pipe? p, metric.nat?, reducer.nat? with
+    | some p, some metric, some reducer =>
+      let s := perfTrackScore metric reducer (.input 1, .input 2) (denote p) (.input 0) (.input 3) (.input 4)
+      .list [.atom "ok", valSexp s.apply, valSexp s.train, valSexp s.label]
+    | _, _, _ => .atom "bad-op"
   | .list [.atom "rows", e, v] =>
     match env? e, val? v with
     | some E, some v => .list [.atom "ok", .list ((rows E v).map rowSexp)]
